@@ -14,11 +14,13 @@ def corpus():
         m = re.match(r"\|\s*([mn]\d+)\s*\|\s*([C0-9,]+)\s*\|", line)
         if m:
             items.append((m.group(1), m.group(2).split(","), os.path.join(V, "mutants", m.group(1) + ".patch"), m.group(1).startswith("n")))
+    have = {i[0] for i in items}
     for fn in sorted(os.listdir(os.path.join(V, "mutants"))):
-        if re.match(r"n1[4-9]\.patch|n[2-9]\d\.patch", fn):
+        if re.match(r"n\d+[a-z]?\.patch$", fn) and fn[:-6] not in have:
             head = open(os.path.join(V, "mutants", fn)).readline()
-            mm = re.search(r"properties=([C0-9,]+)", head)
-            items.append((fn[:-6], mm.group(1).split(",") if mm else [], os.path.join(V, "mutants", fn), True))
+            mm = re.search(r"properties=([C0-9, ]+)", head)
+            props = re.findall(r"C\d\d", mm.group(1)) if mm else []
+            items.append((fn[:-6], props, os.path.join(V, "mutants", fn), True))
     for d in sorted(os.listdir(os.path.join(V, "seeded"))):
         meta = json.load(open(os.path.join(V, "seeded", d, "meta.json")))
         items.append((d, [meta["breaks_property"]], os.path.join(V, "seeded", d, "patch.diff"), False))
